@@ -154,13 +154,125 @@ fn strategy() -> BoxedStrategy<Case> {
     (crate::c01::be_strategy(), encp_strategy(), any::<bool>()).prop_map(|(be, p, via_serde)| Case { be, p, via_serde }).boxed()
 }
 
+// ---------------------------------------------------------------------------
+// LWE: there is no compressed LWE encryption routine; the compressed form of a standard
+// encryption whose mask stream is Source::new(seed) is (seed, body).  Decompressing that
+// must give back the standard ciphertext bit for bit (same draw order, same radix).
+// ---------------------------------------------------------------------------
+
+#[derive(Clone, Debug, Serialize, Deserialize)]
+pub struct LweCase {
+    pub be: Be,
+    pub n_lwe: u16,
+    pub base2k: u8,
+    pub size: u8,
+    pub krem: u8,
+    pub dist: Dist,
+    pub noise: u8,
+    pub seed: u64,
+    pub via_serde: bool,
+}
+
+fn lwe_run<B: FullBackend>(m: &poulpy_hal::layouts::Module<B>, c: &LweCase) -> (Vec<i64>, Vec<i64>, Vec<u8>) {
+    use poulpy_core::layouts::compressed::{LWECompressed, LWEDecompress};
+    use poulpy_core::layouts::{Base2K, Degree, LWE, LWELayout, LWEPlaintext, LWESecret, TorusPrecision};
+    use poulpy_core::{EncryptionLayout, LWEEncryptSk};
+    use poulpy_hal::api::{ScratchOwnedAlloc, ScratchOwnedBorrow};
+    use poulpy_hal::layouts::{NoiseInfos, ReaderFrom, ScratchOwned, WriterTo, ZnxViewMut};
+    let (b, size) = (c.base2k as usize, c.size as usize);
+    let k = size * b - c.krem as usize;
+    let n_lwe = c.n_lwe as usize;
+    let lay = LWELayout { n: Degree(n_lwe as u32), k: TorusPrecision(k as u32), base2k: Base2K(b as u32) };
+    let (sg, bd) = NOISES[c.noise as usize % NOISES.len()];
+    let enc = EncryptionLayout::new(lay, NoiseInfos::new(k, sg, bd).unwrap()).unwrap();
+    let mut sk = LWESecret::alloc(Degree(n_lwe as u32));
+    fill_lwe_secret(&mut sk, c.dist.adapt(n_lwe), &mut Source::new(seed32(c.seed, 1)));
+    let mut pt = LWEPlaintext::alloc(Base2K(b as u32), TorusPrecision(k as u32));
+    let vals = gen_column(VClass::Uniform, b, 1, size, c.seed ^ 0x77);
+    for (j, v) in vals.iter().enumerate() {
+        pt.data_mut().at_mut(0, j)[0] = v[0];
+    }
+    let seed = seed32(c.seed, 0xA);
+    let mut scratch = ScratchOwned::<B>::alloc(m.lwe_encrypt_sk_tmp_bytes(&lay) + 4096);
+    let mut ct = LWE::alloc_from_infos(&lay);
+    m.lwe_encrypt_sk(&mut ct, &pt, &sk, &enc, &mut Source::new(seed32(c.seed, 0xE)), &mut Source::new(seed), scratch.borrow());
+    // compressed form (seed, body), assembled through the public serialisation: k, base2k, seed, VecZnx(n=1)
+    let mut body = VecZnx::alloc(1, 1, size);
+    for j in 0..size {
+        body.at_mut(0, j)[0] = ct.data().at(0, j)[0];
+    }
+    let mut stream = vec![];
+    stream.extend((k as u32).to_le_bytes());
+    stream.extend((b as u32).to_le_bytes());
+    stream.extend(seed);
+    body.write_to(&mut stream).unwrap();
+    let mut cmp = LWECompressed::alloc(Base2K(b as u32), TorusPrecision(k as u32));
+    cmp.read_from(&mut &stream[..]).unwrap();
+    if c.via_serde {
+        let mut again = vec![];
+        cmp.write_to(&mut again).unwrap();
+        let mut c2 = LWECompressed::alloc(Base2K(b as u32), TorusPrecision(k as u32));
+        c2.read_from(&mut &again[..]).unwrap();
+        cmp = c2;
+    }
+    let mut out = LWE::alloc_from_infos(&lay);
+    // garbage in the receiver: every coefficient must be overwritten
+    for x in out.data_mut().raw_mut().iter_mut() {
+        *x = 0x1234_5678;
+    }
+    m.decompress_lwe(&mut out, &cmp);
+    (ct.data().raw().to_vec(), out.data().raw().to_vec(), stream)
+}
+
+pub fn lwe_test(c0: &LweCase) -> Verdict {
+    let mut c = c0.clone();
+    c.n_lwe = c.n_lwe.clamp(1, 700);
+    c.base2k = c.base2k.clamp(2, 40);
+    c.size = c.size.clamp(1, 5);
+    c.krem %= c.base2k;
+    let log_n = 3u8;
+    let (std, dec, stream) = with_backend!(c.be, log_n, |m| lwe_run(m, &c));
+    if std != dec {
+        let first = std.iter().zip(dec.iter()).position(|(x, y)| x != y).unwrap_or(0);
+        return Verdict::fail("lwe|decompressed-differs-from-standard", format!("backend={}: decompress(seed, body of the standard encryption whose mask stream is Source::new(seed)) differs from that encryption (first difference at raw index {first} of {})\ncase={c:?}", c.be.name(), std.len()));
+    }
+    let other = match c.be {
+        Be::FftRef => Be::NttAvx,
+        Be::FftAvx => Be::NttRef,
+        Be::NttRef => Be::FftAvx,
+        Be::NttAvx => Be::FftRef,
+    };
+    let (std2, dec2, stream2) = with_backend!(other, log_n, |m| lwe_run(m, &c));
+    if std2 != std || dec2 != dec || stream2 != stream {
+        return Verdict::fail("lwe|cross-backend", format!("{} and {} disagree on the LWE encryption / compressed stream / decompression for equal seeds\ncase={c:?}", c.be.name(), other.name()));
+    }
+    let mut cl = vec!["lwe", c.be.name()];
+    if c.via_serde {
+        cl.push("via_serialisation");
+    }
+    if c.krem != 0 {
+        cl.push("k_not_multiple_of_radix");
+    }
+    Verdict::pass(c.n_lwe >= 2, &cl)
+}
+
+fn lwe_strategy() -> BoxedStrategy<LweCase> {
+    (crate::c01::be_strategy(), prop_oneof![1u16..=16, 1u16..=700], 2u8..=40, 1u8..=5, any::<u8>(), dist_strategy(), 0u8..3, any::<u64>(), any::<bool>())
+        .prop_map(|(be, n_lwe, base2k, size, krem, dist, noise, seed, via_serde)| LweCase { be, n_lwe, base2k, size, krem, dist, noise, seed, via_serde })
+        .boxed()
+}
+
 pub fn run_all(ctx: &Ctx) {
     let t = ctx.tier;
     ctx.run_sub("compressed_equals_standard", t.pick(6_000, 80_000), 64, strategy, test);
+    ctx.run_sub("lwe_compressed_equals_standard", t.pick(20_000, 400_000), 64, lwe_strategy, lwe_test);
 }
 
 pub fn replay(ctx: &Ctx, sub: &str, case: &serde_json::Value) -> i32 {
+    if sub == "lwe_compressed_equals_standard" {
+        return ctx.replay_case::<LweCase, _>(sub, case, lwe_test);
+    }
     ctx.replay_case::<Case, _>(sub, case, test)
 }
 
-pub const RULE: &str = "cases = (backend, compressed layout in {GLWE, GGLWE, GGSW, GLWE switching key, automorphism key, tensor key}, N 8..128, radix 2..40 inside the backend domain, ranks 1..3 (in/out), dnum 1..3, dsize 1..2, every secret distribution, three noise settings, generated sk/xa/xe/pt seeds, with and without a write_to/read_from round trip of the compressed object). Oracle: per cell, masks == fill_uniform from Source::new(stored seed) in column order (bit exact); exact phase == phase of the standard encryption's cell under the same error seed (exact torus equality: same plaintext, same error sample); digits normalised; decompression identical after serialisation; bytes identical on a second backend of the other family. non-trivial = at least two cells or rank >= 2.";
+pub const RULE: &str = "cases = (backend, compressed layout in {GLWE, GGLWE, GGSW, GLWE switching key, automorphism key, tensor key, GGLWE-to-GGSW key, blind-rotation key (CGGI; LWE dimension 1..6, binary block / probability / fixed-weight LWE secret; its GGSWs are read back through the public serialisation)}, N 8..128, radix 2..40 inside the backend domain, ranks 1..3 (in/out), dnum 1..3, dsize 1..2, every secret distribution, three noise settings, generated sk/xa/xe/pt seeds, with and without a write_to/read_from round trip of the compressed object). Oracle: per cell, masks == fill_uniform from Source::new(stored seed) in column order (bit exact); exact phase == phase of the standard encryption's cell under the same error seed (exact torus equality: same plaintext, same error sample); digits normalised; decompression identical after serialisation; bytes identical on a second backend of the other family. non-trivial = at least two cells or rank >= 2. Sub-check lwe_compressed_equals_standard: (backend, LWE dimension 1..700, radix 2..40, 1..5 limbs, k residue, secret distribution, noise, seed): the compressed form (seed, body) of the standard lwe_encrypt_sk run with mask stream Source::new(seed), assembled through the public stream format, must decompress (into a garbage-filled receiver) to that ciphertext bit for bit, also after a serialisation round trip and on a second backend; non-trivial = dimension >= 2.";
